@@ -66,10 +66,12 @@ def chooser(spec):
         if harm is not None:
             if base == "IDF035":
                 return harm[0]
+            li = int(name.rsplit("_", 1)[1]) - 1 if "_" in name else 0      # layer index: 'vary' gives every layer its own degree/order
+            vary = spec.get('harmvary', 0)
             if base == "IDF037":
-                return harm[1]
+                return min(15, harm[1] + vary * li)
             if base == "IDF038":
-                return harm[2]
+                return max(0, min(15, harm[2] + vary * li * (1 if li % 2 == 0 else -1)))
         if mode[0] == 'uniform':
             return min(mode[1], top)
         if mode[0] == 'seeded':
@@ -124,7 +126,7 @@ def structures(ident, tier, seed=0):
         hs = [(0, 0, 0), (0, 1, 0), (0, 1, 1), (1, 1, 1), (0, 2, 1), (0, 2, 5), (0, 0, 3), (1, 1, 4)] if tier == 'quick' else \
             [(l, n, m) for l in (0, 1, 2) for n in (0, 1, 2, 3) for m in range(0, n + 1)] + \
             [(0, 15, 15), (0, 15, 0), (0, 12, 7), (3, 1, 1), (0, 2, 5), (0, 0, 3), (1, 1, 4), (0, 3, 15)]
-        out += [dict(harm=h) for h in hs]
+        out += [dict(harm=h) for h in hs] + [dict(harm=(1, 1, 1), harmvary=1), dict(harm=(2, 2, 0), harmvary=2)]
     elif k == 'flags':
         out += [dict(flags=f) for f in range(16)]
     else:
